@@ -64,6 +64,10 @@ PROPS = {
                 text="obfs2 real<->real and both real/reference role pairings with reference padding 0..8192 incl. extremes, all write plans and chunkings; rejection runs with every single-bit corruption of the magic and PADLEN 8193 .. 2^32-1 (must fail Dial/WrapConn) and PADLEN 8192 (must be accepted); the reference parses the real side's seed/magic/padlen and decrypts its stream byte-exactly.",
                 note="Trusted: simulator, the independent obfs2 reference (sim/ref/obfsref).",
                 technique=TECH + "two-party interop against an independent reference, seeded segmentation, malformed-handshake injection"),
+    "C15": dict(engine="disk", quick=40, thorough=600, level="exploration", design="DESIGN.md section 4, C15",
+                text="Histories of up to 6 steps (connect, 7-day jumps, hour jumps, ticket-file deletion, restart = new factory on the same simulated disk) of the real ScrambleSuit client against a reference server: reply padding 0..1308 incl. extremes, the reply split at every byte position from the end of the key to its last byte (mark and MAC favoured), control packets and first data coalesced behind the reply, all chunkings, wrong secret, single-bit tampering of every reply field and of data packets, ticket issue; oracle: Dial completes for every split, streams exact and complete after 10 quiet virtual minutes, tampering surfaces as an error with no altered data, every ticket seen by the server at most once, wrong secret / tampered reply fail within 60 s.",
+                note="The ScrambleSuit reference server (sim/ref/obfsref/ss.go) follows the published protocol from memory; it is the least independent reference. Tickets live on the simulated disk (os -> simos).",
+                technique=TECH + "history generation with response-split enumeration, tampering faults and a ticket-use model on a virtual clock and disk"),
     "C17": dict(engine="wire", quick=30, thorough=600, level="exploration", design="DESIGN.md section 4, C17",
                 text="A step-by-step reference SOCKS5 client (IPv4 / IPv6 incl. v4-mapped / domains of 1..255 arbitrary bytes, any port, argument maps with escaped ';' '=' '\\', 8-bit bytes, repeated keys, every username/password spill point) under all segmentations with pauses inside the 5 s budget, plus 19 malformed variants (bad versions, nmethods 0, no acceptable method, bad auth version, ulen/plen 0, bad escapes, empty key, key without value, trailing ';', unknown atyp, zero-length domain, BIND/UDP, non-zero RSV, pipelined trailing bytes, truncation, silence > 5 s); oracle: exact Target/Args for conforming exchanges, error plus (nothing | the stage's RFC failure reply) for malformed ones, deadline enforced and disarmed.",
                 note="Trusted: simulator, the strict pt-spec argument encoder in the harness. IPv6 targets are compared as addresses (net.IP.Equal), domain targets byte for byte.",
